@@ -27,7 +27,8 @@ CLAIMS = {
  "C06": ("Decides that a task's kind, destination and payload reach the request updatePlan issues (task-field flow), the execution guards (loop stops at the "
          "first inactive origin, request only under the origin's success mark, Origin scope naming the head, removal and mark clearing afterwards), the "
          "success/failure routing decision trees of updatePlan and C_/O_::deepUpdatePlans, that head and sub-state statuses are or-ed into the right "
-         "accumulators everywhere, mark clearing on exit / end of step, default propagation, TaskStatus ordering, and payload~void sibling agreement. "
+         "accumulators everywhere, that the status a state reports is the status of its own callbacks (the shared region-scope status is cleared before they "
+         "run), mark clearing on exit / end of step, default propagation, TaskStatus ordering, and payload~void sibling agreement. "
          "Does not decide the step-level accumulation of statuses across nested regions as values.",
          "field-flow + decision-tree path rules + sibling skeleton agreement over clang AST facts (static analysis)"),
  "C07": ("Decides the capacity clause (no effect and `false` at capacity), who may write the link / bound / task tables, the exact write sets of linkTask "
@@ -47,7 +48,8 @@ CLAIMS = {
          "follows from these given C01-C03 and is not separately computed.",
          "writer/reader mirror (per-path stream-token isomorphism) + call-tree bit budget + effect ordering over clang AST facts (static analysis)"),
  "C09": ("Decides what is recorded and when (approved arm only; published on every exit of a step; cleared on deactivation/reset/load/replay), that the "
-         "change predicate compares the whole pending configuration, who may write the pin table and that it is read under a bound, and that replay reaches "
+         "change predicate compares the whole pending configuration, who may write the pin table, that it is read under a bound and written with the request's position in the whole step's record (not in "
+         "the round), and that replay reaches "
          "no guard, records exactly the replayed list and commits through the ordinary routine. Does not decide that replay lands in the same configuration "
          "from every state, nor the resumable part.",
          "path rules + who-may-write + call-graph reachability over clang AST facts (static analysis)"),
@@ -55,7 +57,8 @@ CLAIMS = {
          "call-graph reachability), that every scalar member of every library record is definitely initialised by every constructor, that there is no "
          "mutable static / thread-local state, that user-provided copy/move constructors copy every base and member from the corresponding part, and that "
          "self-referential objects (reference or pointer into the same complete object) are not copied member-wise, and that a class which "
-         "read-modify-writes caller storage behind a reference member clears it on construction (the serialisation write stream). Does not decide "
+         "read-modify-writes caller storage behind a reference member clears it on construction (the serialisation write stream), and that no expression has two operands with caller-visible effects whose order "
+         "of evaluation is unspecified (callback order is not the compiler's choice). Does not decide "
          "behavioural equality of two runs as such.",
          "constructor-initialiser / record-layout rules + call-graph reachability over clang AST facts (static analysis)"),
  "C11": ("Decides absence of dynamic allocation (expressions, callees, member types, includes), that every write growing a fixed array through a member "
@@ -96,7 +99,8 @@ CLAIMS = {
          "normal-form (definition-substituted, fully parenthesised) comparison of container leaf code over clang AST facts (static analysis)"),
  "C20": ("Decides that every float/double handed out is in [0,1) (known-bits argument on the reinterpreted bit pattern: sign 0, exponent = bias, mantissa = "
          "top bits of the integer draw; or the exact-scaling idiom), that the seeding draw rejects zero and fills all four state words, that generator "
-         "members touch nothing but their own state, and that the next-state / output maps of splitmix64/32, xoshiro256+/128+/256**/128** and their "
+         "members touch nothing but their own state, that no expression draws twice in an unspecified order (the output does not depend on the compiler), and "
+         "that the next-state / output maps of splitmix64/32, xoshiro256+/128+/256**/128** and their "
          "jump() (tables, bounds, body) equal the published algorithms: both sides are symbolically evaluated to canonical terms over the input "
          "state (xor/shift/rotate exact, + and * commutative uninterpreted) from the extractor's ASTs — HFSM2's and the vendored reference sources'.",
          "symbolic term evaluation + canonical-form equality against vendored references, known-bits reasoning (static analysis)"),
